@@ -18,6 +18,7 @@ def check(ctx, rep):
     treer.tree_0(ctx, rep)
     rxr.rx_3_4(ctx, rep)
     rxr.rx_9(ctx, rep)
+    rxr.rx_5_6(ctx, rep)      # bytes input: the codec the detector picks does not swallow the BOM
     from ..rules import eff as _eff6
     _eff6.eff_6(ctx, rep)        # no memo hands one mutable result to several callers
     rep.note('Not decided: that the regexes and the `pos` arithmetic slice each line correctly (value reasoning), '
